@@ -69,7 +69,7 @@ theorem ser_step (cfg : Cfg) (hfl : cfg.fl ≠ .const) (s s' : State f) (l : Lab
   have he := hs.exec
   have hx := hs.serialNoExecs hfl
   clear hs
-  cases l <;> step_inv h
+  cases l <;> rfn_step_inv h
   all_goals (constructor <;>
     simp_all [scan_append, deqOrder_append, endOrder_append, scan, scan1, Loop.cur, deqOrder, endOrder, endExec]
     <;> grind [Loop.cur])
@@ -133,7 +133,7 @@ theorem lin_step_locInit (cfg : Cfg) (s s' : State f) (l : Label) (hw : WF s) (h
   have w3 := hw.fresh
   have l2 := hl.locInit
   clear hw hl
-  cases l <;> step_inv h
+  cases l <;> rfn_step_inv h
   all_goals (intro c' hc'; have := l2 c'; have := w3 c'; clear l2 w3; lin_tac)
 
 
@@ -152,13 +152,13 @@ theorem lin_step_ok (cfg : Cfg) (hfl : cfg.fl ≠ .const) (s s' : State f) (l : 
   clear hw hs hc l2 l3
   cases l with
   | execStep c =>
-    step_inv h
+    rfn_step_inv h
     all_goals (have hr := hrun c (by simp_all); have h4 := l4 c hr.1; clear hrun l4; lin_tac)
   | execCancel c =>
-    step_inv h
+    rfn_step_inv h
     all_goals (have hr := hrun c (by simp_all); have h4 := l4 c hr.1; clear hrun l4; lin_tac)
   | _ =>
-    step_inv h
+    rfn_step_inv h
     all_goals (clear hrun l4; lin_tac)
 
 
@@ -170,13 +170,13 @@ theorem lin_step_idle (cfg : Cfg) (hfl : cfg.fl ≠ .const) (s s' : State f) (l 
   clear hw hs hc l1 l2
   cases l with
   | execStep c =>
-    step_inv h
+    rfn_step_inv h
     all_goals (have hr := hrun c (by simp_all); have h4 := l4 c hr.1; clear hrun l4; lin_tac)
   | execCancel c =>
-    step_inv h
+    rfn_step_inv h
     all_goals (have hr := hrun c (by simp_all); have h4 := l4 c hr.1; clear hrun l4; lin_tac)
   | _ =>
-    step_inv h
+    rfn_step_inv h
     all_goals (clear hrun l4; lin_tac)
 
 theorem lin_step_run (cfg : Cfg) (hfl : cfg.fl ≠ .const) (s s' : State f) (l : Label) (hw : WF s) (hs : ST cfg s)
@@ -191,16 +191,16 @@ theorem lin_step_run (cfg : Cfg) (hfl : cfg.fl ≠ .const) (s s' : State f) (l :
   clear hw hs hc l1
   cases l with
   | execStep c =>
-    step_inv h
+    rfn_step_inv h
     all_goals (intro c' hc'; have hr := hrun c (by simp_all); have h4 := l4 c hr.1; clear hrun l4 hq hpre l2; lin_tac)
   | execCancel c =>
-    step_inv h
+    rfn_step_inv h
     all_goals (intro c' hc'; have hr := hrun c (by simp_all); have h4 := l4 c hr.1; clear hrun l4 hq hpre l2; lin_tac)
   | dequeue =>
-    step_inv h
+    rfn_step_inv h
     all_goals (intro c' hc'; have h5 := hq c'; have h6 := hpre c'; have h7 := l2 c'; clear hrun l4 hq hpre l2; lin_tac)
   | _ =>
-    step_inv h
+    rfn_step_inv h
     all_goals (intro c' hc'; have h4 := l4 c'; have h8 := hllt c'; clear hrun l4 hq hpre l2 hllt; lin_tac)
 
 theorem lin_step (cfg : Cfg) (hfl : cfg.fl ≠ .const) (s s' : State f) (l : Label) (hw : WF s) (hs : ST cfg s)
@@ -220,7 +220,7 @@ theorem once_init : ONCE (init f) := by
 theorem once_step (cfg : Cfg) (hfl : cfg.fl = .once) (s s' : State f) (l : Label) (ho : ONCE s)
     (h : step cfg s l = some s') : ONCE s' := by
   obtain ⟨o1, o2⟩ := ho
-  cases l <;> step_inv h
+  cases l <;> rfn_step_inv h
   all_goals (constructor <;> simp_all [deqOrder_append, deqOrder, endExec] <;> grind)
 
 end Remoc.Rfn
